@@ -281,7 +281,7 @@ putPaths(void)
 {
 #if DRV_LG == 7
 	static const char *lab[] = { "d = 1", "uj0 == v1", "**** 2 ****", "rhat ov", "Add Back", 0 };
-	static const char *nam[] = { "d1", "ujeqv1", "corr2", "rhatov", "addback", 0 };
+	static const char *nam[] = { "d1", "ujeqv1", "iter2", "rhatov", "addback", 0 };
 	int i, first = 1;
 	long n;
 	if (!dbOut) return;
@@ -344,6 +344,16 @@ modPosH(BInt t, BInt C, BInt *pq)
 }
 
 /* ------------------------------------------------------------------------- */
+
+/* an operation that does not return within the watchdog time: reported as a Hang event */
+static void
+onAlarm(int sig)
+{
+	char buf[256];
+	int n = snprintf(buf, sizeof buf, "\n{\"ev\":\"Hang\",\"op\":\"%s\",\"ln\":%ld,\"rx\":%d,\"signal\":%d}\n", curOp, curLine, DRV_LG, sig);
+	if (out) { fflush(out); if (write(fileno(out), buf, n) < 0) { } }
+	_exit(71);
+}
 
 static void
 onFault(int sig)
@@ -619,10 +629,12 @@ main(int argc, char **argv)
 	in = fopen(argv[1], "r");
 	out = fopen(argv[2], "a");
 	if (!in || !out) { perror("bigint_drv"); return 3; }
+	signal(SIGALRM, onAlarm);
 	signal(SIGSEGV, onFault); signal(SIGABRT, onFault); signal(SIGFPE, onFault); signal(SIGBUS, onFault); signal(SIGILL, onFault);
 	while (getline(&line, &cap, in) > 0) {
 		curLine++;
 		if (curLine < first) continue;
+		alarm(20);
 		doLine(line);
 		if ((curLine & 63) == 0) fflush(out);
 	}
